@@ -237,6 +237,17 @@ def rejection_sampling(ctx, world, ev):
         bad_n, bad_m, unfold = [], [], []
         shared = [x for t_ in (mask, nb) for x in subterms(t_) if is_app(x, "msc")]
         if shared:
+            # a hand-written memo: decided when every store into the container made by the sampler is  C[k] = v  with v a
+            # function of k alone (then a later lookup C[K] can only return F(K), whoever stored it)
+            r_ = memo_resolve(world, e2, outs, shared[0], (mask, nb))
+            if r_ is not None and r_[0] == "unsound":
+                ctx.ob("R4", "cached mask", False, r_[1], r_[2] or site)
+                continue
+            if r_ is not None and r_[0] == "ok":
+                mask, nb = r_[1]
+                ctx.ob("R4", "cached mask", True, r_[2], site)
+                shared = []
+        if shared:
             # DESIGN 1.4: what the analysis cannot interpret is "no verdict", not a violation - the value read from a shared
             # mutable container (a hand-written cache) depends on the history of the process; C16/W1 reports the container
             raise AnalysisError("%s:%s the mask / draw length of the sampler is read from the shared mutable container %s: its value depends on "
@@ -290,6 +301,86 @@ def rejection_sampling(ctx, world, ev):
            "no retry path: rejected candidates are not re-drawn", site)
 
 
+def memo_resolve(world, e2, outs, msc, terms):
+    """msc = the shared container some of `terms` look up.  -> ("unsound", detail, site) when a store made by the
+    evaluated function puts a value under a key that does not determine it; ("ok", terms with each lookup C[K]
+    replaced by F(K), detail) when every store is C[k] = F(k) and nothing else in the package writes C; None when
+    the analysis cannot tell (other writers, no store seen)."""
+    import ast
+    from ..terms import subst
+    stores = []
+    for st_ in [o.state for o in outs] + [p.st for p in e2.continues]:
+        for r in st_.log:
+            if r[0] == "sub-store" and r[1] == msc:
+                stores.append((r[2], r[3], r[4], [(t, pol) for (t, pol, _) in st_.pc]))
+    if not stores:
+        return None
+    KAPPA = Sym("cache-key")
+
+    def only_key(t):
+        return not any((isinstance(x, Sym) and x != KAPPA) or is_app(x, "msc", "call") for x in subterms(t))
+    cases = []
+    for k, v, site, pc in stores:
+        if isinstance(k, Const):
+            return None
+        vk = subst(v, {k: KAPPA})
+        if not only_key(vk):
+            free = sorted({x.n for x in subterms(vk) if isinstance(x, Sym) and x != KAPPA})
+            return ("unsound", "the sampler caches %s under the key %s, but the cached value also depends on %s: a later call whose key "
+                    "coincides reads a mask / length computed for a different range" % (show(v, maxdepth=4), show(k, maxdepth=4), free or "the cache itself"), site)
+        # the conditions of the storing path that speak about the key alone select this case of a piecewise F
+        cd = []
+        for (t, pol) in pc:
+            tk = subst(t, {k: KAPPA})
+            if KAPPA in list(subterms(tk)) and only_key(tk) and (tk, pol) not in cd:
+                cd.append((tk, pol))
+        if (frozenset(cd), vk) not in [(frozenset(c_), v_) for c_, v_ in cases]:
+            cases.append((cd, vk))
+    if len({v_ for _, v_ in cases}) == 1:
+        F = cases[0][1]
+    else:
+        F = cases[-1][1]
+        for cd, v_ in reversed(cases[:-1]):
+            if not cd:
+                return None
+            c = None
+            for (t, pol) in cd:
+                tt = t if pol else App("Not", (t,))
+                c = tt if c is None else App("And", (c, tt))
+            F = App("ifelse", (c, v_, F))
+    fs = [F]
+    # nothing else in the package may write the container
+    name = None
+    try:
+        name = eval(msc.args[0].v)          # the key is the repr of a tuple of plain strings written by msc_wrap
+    except Exception:
+        return None
+    if not (isinstance(name, tuple) and len(name) == 3 and name[0] == "module"):
+        return None
+    mod = world.module(name[1])
+    sites = set()
+    for n in ast.walk(mod.tree):
+        tgt = None
+        if isinstance(n, ast.Subscript) and isinstance(n.ctx, (ast.Store, ast.Del)) and isinstance(n.value, ast.Name) and n.value.id == name[2]:
+            tgt = n
+        if isinstance(n, ast.Call) and isinstance(n.func, ast.Attribute) and isinstance(n.func.value, ast.Name) and n.func.value.id == name[2] \
+                and n.func.attr in ("update", "setdefault", "pop", "popitem", "clear", "__setitem__", "__delitem__"):
+            tgt = n
+        if tgt is not None:
+            sites.add(tgt.lineno)
+    seen = {s_[2][1] for s_ in stores if s_[2]}
+    others = [m_ for m_ in world.mods.values() if m_ is not mod and any(isinstance(n, ast.Name) and n.id == name[2] for n in ast.walk(m_.tree))] \
+        if hasattr(world, "mods") and isinstance(world.mods, dict) else []
+    if not sites <= seen or others:
+        return None
+    out = []
+    for t in terms:
+        rep = {x: subst(fs[0], {KAPPA: x.args[1]}) for x in subterms(t) if is_app(x, "index") and x.args[0] == msc}
+        t2 = subst(t, rep) if rep else t
+        out.append(t2)
+    return ("ok", tuple(out), "the mask / length is read from a memo whose every store is C[k] = F(k) for one F: a lookup returns F(key)")
+
+
 BMAX = 4224
 
 
@@ -314,6 +405,28 @@ def random_scalars(ctx, world, ev):
     for o in rets:                               # optional extra arguments (e.g. precomputed masks) are R's business too
         if isinstance(o.value, App) and o.value.f == want.f and o.value.args[:3] == want.args:
             want = o.value
+    extra_pos, extra_kw = tuple(want.args[3:]), tuple(want.kw)
+    if any(not isinstance(a, Const) for a in extra_pos) or any(not isinstance(v_, Const) for _, v_ in extra_kw):
+        # the group hands the sampler more than (start, stop, f) - e.g. a precomputed size or mask.  Whatever these
+        # arguments select inside the sampler (a memo entry, typically) must still be determined by the range: the
+        # sampler is evaluated once more with the extra parameters arbitrary and its memo stores are re-examined
+        e4 = Ev(world, loop_mode="once")
+        e4.import_all()
+        e4.policy.force_inline.add(ur.qual)
+        start_, stop_ = Sym("start", "int"), Sym("stop", "int")
+        try:
+            outs4 = e4.run(ur, [start_, stop_, ent] + [a if isinstance(a, Const) else Sym("extra%d" % i, "int") for i, a in enumerate(extra_pos)],
+                           [(k_, v_ if isinstance(v_, Const) else Sym("extra_" + k_, "int")) for k_, v_ in extra_kw], world.static.fork())
+        except AnalysisError:
+            outs4 = []
+        for o4 in session.rets(outs4):
+            for m_ in [x for x in subterms(o4.value) if is_app(x, "msc")][:1]:
+                r_ = memo_resolve(world, e4, outs4, m_, (o4.value,))
+                if r_ is not None and r_[0] == "unsound":
+                    ctx.ob("N2", g.cls.name + ".random_scalar extra arguments", False,
+                           "random_scalar passes %s to the sampler; with that argument %s" % (
+                               ", ".join([show(a, maxdepth=3) for a in extra_pos] + ["%s=%s" % (k_, show(v_, maxdepth=3)) for k_, v_ in extra_kw]), r_[1]),
+                           r_[2] or (g.cls.mod.relpath, 0, "random_scalar"))
     ok = len(outs) == 1 and len(rets) == 1 and rets[0].value == want
     ctx.ob("N2", g.cls.name + ".random_scalar", ok, "random_scalar(f) = unbiased_randrange(0, q, f)" if ok else
            "integer-group random_scalar is %s, expected unbiased_randrange(0, q, entropy_f)" % [show(o.value, maxdepth=5) for o in rets],
